@@ -288,7 +288,14 @@ def run_pool(ws, names, jobs, njobs, mode="run"):
         shards.append((j, Shard(k, ws, names, j["indices"], j["seed"], j["flags"], j["workdir"], mode)))
     pending = list(shards)
     running = []
+    deadline = time.time() + float(os.environ.get("VERIF_MIRI_TIMEOUT", "3600"))
     while pending or running:
+        if time.time() > deadline:
+            for _, s in running:
+                if s.proc.poll() is None:
+                    s.proc.kill()
+            D.log("HARNESS-ERROR the Miri batch did not finish within its wall-clock limit")
+            raise SystemExit(2)
         while pending and len(running) < njobs:
             j, s = pending.pop(0)
             if s.start():
